@@ -862,6 +862,19 @@ pub fn part_evalfp(out: &mut Out, o: &Opts) {
     ] {
         emit_eval(out, f, &[]);
     }
+    // the bound name in every position of every construct (each body monotone in x): both lists of list-against-list
+    // comparisons, every operand position, quantifier bodies, both if-branches, under double negation, inside an inner fixed point
+    for f in [
+        "lfp x # [p, q] <= [r, x]", "gfp x # [p, q] <= [r, x]", "lfp x # [p] < [x, q, r]", "lfp x # [x, p] >= [q, r]", "gfp x # [x, p, q] > [r]",
+        "lfp x # [p, q] <= [x, x]", "lfp x # [x & p, q] >= [r]", "gfp x # [p] <= [q & x]", "lfp x # [p, q] < [r | x, r]", "lfp x # [p] <= [r, exists r # x]",
+        "lfp x # [p, x, q] >= 2", "lfp x # [p, q, x] > 1", "gfp x # [-x, p] <= 1", "gfp x # [p, -x, q] < 2", "lfp x # [p, q] <= [r, x] & [x, r] >= [p]",
+        "lfp x # if p then q else x", "lfp x # if p then x else x", "gfp x # if p then x & q else r", "lfp x # p | -(q & -x)", "lfp x # p | (q => x)", "gfp x # (-x) nor p",
+        "gfp x # x <= p", "lfp x # (-x) nand -p", "lfp x # p | exists q, r # (q & x)", "gfp x # forall q # (q | x) & p", "lfp x # p | (gfp y # (x | q) & y)",
+        "lfp x # p | (lfp y # (x & q) | y | [r, x] >= [y, q])", "gfp x # [p, q] >= [r] & x", "lfp x # [p, q] >= [r] | x",
+    ] {
+        emit_eval(out, f, &[]);
+        emit_eval(out, f, &[("r".to_string(), 0), ("x".to_string(), 1), ("p".to_string(), 4)]);
+    }
     // long iterations: a chain that grows by one variable per round (the pattern of tests/data/test_fixpoint.txt),
     // n rounds for n variables, and its dual
     let chain_ns: &[usize] = if o.thorough { &[2, 5, 40, 64, 65, 127, 128, 129, 135, 256, 300] } else { &[2, 5, 40, 129] };
@@ -1129,7 +1142,8 @@ pub fn real_sym(i1: usize, n1: &str, i2: usize, n2: &str) -> String {
     guard(|| {
         use std::hash::{Hash, Hasher};
         let a = NamedSymbol { name: Rc::new(n1.to_string()), id: i1 };
-        let b = NamedSymbol { name: Rc::new(n2.to_string()), id: i2 };
+        // equal names share ONE allocation (symbols cloned from a template and given another id)
+        let b = NamedSymbol { name: if n1 == n2 { Rc::clone(&a.name) } else { Rc::new(n2.to_string()) }, id: i2 };
         let cmp = match a.cmp(&b) {
             std::cmp::Ordering::Less => "lt",
             std::cmp::Ordering::Equal => "eq",
@@ -1421,7 +1435,82 @@ fn craft(text: &str, names: &[&str], target: &str, pivot: &str, salt: u64) -> Op
     }
 }
 
+fn fx_kinv() -> u64 {
+    // inverse of the odd multiplier modulo 2^64 (Newton iteration)
+    let mut x: u64 = FX_K;
+    for _ in 0..6 {
+        x = x.wrapping_mul(2u64.wrapping_sub(FX_K.wrapping_mul(x)));
+    }
+    x
+}
+
+/// an ordering under which the diagrams of the two texts `ta` and `tb` (evaluated separately) have the same FxHash although they
+/// differ: the id of `target` (which must occur exactly once in the words of `tb`'s diagram and not in `ta`'s) is solved for by
+/// running the hasher forwards up to it and backwards from the wanted hash
+fn craft_pair(ta: &str, tb: &str, names: &[&str], target: &str, salt: u64) -> Option<Vec<(String, usize)>> {
+    let tpos = names.iter().position(|n| *n == target)?;
+    let placeholder = (1usize << 41) + 4321;
+    let mk = |tid: usize| -> Vec<(String, usize)> {
+        names
+            .iter()
+            .enumerate()
+            .map(|(i, n)| {
+                let id = if i < tpos { 1 + i * (1 + salt as usize % 4) + (salt as usize % 3) } else if i == tpos { tid } else { usize::MAX - 40 + i };
+                (n.to_string(), id)
+            })
+            .collect()
+    };
+    let eval = |t: &str, o: &[(String, usize)]| -> Option<Rc<BDD<NamedSymbol>>> {
+        let p = ParsedFormula::new(&mut BufReader::new(t.as_bytes()), to_symbols(o)).ok()?;
+        Some(p.eval())
+    };
+    let o0 = mk(placeholder);
+    let (ea, eb) = (eval(ta, &o0)?, eval(tb, &o0)?);
+    let (wa, wb) = (record(ea.as_ref())?, record(eb.as_ref())?);
+    if wa.contains(&(placeholder as u64)) || wb.iter().filter(|w| **w == placeholder as u64).count() != 1 {
+        return None;
+    }
+    let pos = wb.iter().position(|w| *w == placeholder as u64)?;
+    let kinv = fx_kinv();
+    let mut st = fx_run(&wa);
+    for w in wb[pos + 1..].iter().rev() {
+        st = (st.wrapping_mul(kinv) ^ w).rotate_right(5);
+    }
+    let tid = (st.wrapping_mul(kinv) ^ fx_run(&wb[..pos]).rotate_left(5)) as usize;
+    let o1 = mk(tid);
+    if tid == usize::MAX || !o1.windows(2).all(|w| w[0].1 < w[1].1) {
+        return None;
+    }
+    let wb2: Vec<u64> = wb.iter().map(|w| if *w == placeholder as u64 { tid as u64 } else { *w }).collect();
+    if wa != wb2 && fx_run(&wa) == fx_run(&wb2) {
+        Some(o1)
+    } else {
+        None
+    }
+}
+
 pub fn part_evalid(out: &mut Out, o: &Opts) {
+    // two arbitrary diagrams with one hash: (text A, text B, names ascending, solved name, formulas in which both arise)
+    let pairs: [(&str, &str, &[&str], &str, &[&str]); 6] = [
+        ("false", "a", &["b", "X", "a"], "a", &["lfp X # a | (b & (exists a # X))", "a | false", "[a, false, b] >= 1", "if b then a else false"]),
+        ("true", "-a", &["b", "X", "a"], "a", &["gfp X # -a & (b | (forall a # X))", "-a & true", "[-a, true, b] = 2"]),
+        ("p", "-q", &["p", "c", "q"], "q", &["[p, -q] >= 1", "[p, -q] = 2", "[p, -q, c] <= 1", "p & -q", "p ^ -q", "if p then -q else c", "-p | --q", "lfp X # p | (-q & X)"]),
+        ("p & c", "q | d", &["p", "c", "q", "d"], "q", &["(p & c) ^ (q | d)", "[p & c, q | d] = 1", "-(p & c) & -(q | d)", "exists c # (p & c) | -(q | d)"]),
+        ("p | c", "-(q & d)", &["p", "c", "q", "d"], "q", &["(p | c) & -(q & d)", "[p | c, -(q & d), c] >= 2", "(p | c) <=> -(q & d)"]),
+        ("x", "y & z", &["x", "y", "z"], "y", &["x | (y & z)", "[x, y & z, x] = 2", "forall x # x | (y & z)", "gfp X # (x | X) & (y & z | X)"]),
+    ];
+    let mut crafted2 = 0;
+    for (ta, tb, names, target, forms) in pairs {
+        for salt in 0..4u64 {
+            if let Some(ord) = craft_pair(ta, tb, names, target, salt) {
+                crafted2 += 1;
+                for f in forms {
+                    emit_evalid(out, f, &ord);
+                }
+            }
+        }
+    }
+    eprintln!("evalid: {crafted2} crafted orderings with two equal-hash diagrams");
     // (formula, names in ascending id order, name whose id is solved for, name tested by the parent of the colliding pair)
     let templates: [(&str, &[&str], &str, &str); 8] = [
         ("if s then (a | b) else (c | d)", &["s", "a", "c", "b", "d"], "d", "s"),
